@@ -193,6 +193,14 @@ func randomTriangle(rng *rand.Rand) rgbSpace {
 			continue
 		}
 		w := xy(float32(float64(r.X)+u*float64(g.X-r.X)+v*float64(b.X-r.X)), float32(float64(r.Y)+u*float64(g.Y-r.Y)+v*float64(b.Y-r.Y)))
+		// the luminance of the white (and of the primaries, which must not matter) is not always 1
+		switch rng.Intn(4) {
+		case 0:
+			w.YY = []float32{0.5, 2, 0.18, 0.9, 1.25}[rng.Intn(5)]
+		case 1:
+			w.YY = float32(0.1 + 2*rng.Float64())
+			r.YY, g.YY, b.YY = float32(0.2+1.3*rng.Float64()), float32(0.2+1.3*rng.Float64()), float32(0.2+1.3*rng.Float64())
+		}
 		return rgbSpace{"random", r, g, b, w}
 	}
 }
